@@ -9,6 +9,8 @@ correspondence only).
 * `negate_field_values`: `-f`;
 * `copy_collection_reads_members`: `fc.copy(dtype=..)` of a collection reads the CURRENT data of the member objects,
   in order, converted to the dtype of the copy.
+* `copy_collection_member_reads`: member `k` of the copy reads member `k` of the original (converted);
+* `binop_collection_scalar_values`: `fc <op> number`; `binop_collection_values`: `fc <op> field / collection`; `negate_collection_values`: `-fc`.
 All about `Heap.step`, the definition the driver `c15.run` folds over every history.
 -/
 set_option linter.unusedSectionVars false
@@ -316,6 +318,363 @@ theorem copy_collection_reads_members {s s' : State K} (hwf : WF s) {h : Nat} {o
     congr 1
     rw [List.flatMap_def, List.flatMap_def, hreads]
 
+/-! ### the copied collection as an object, its members, and arithmetic on collections -/
+
+/-- the collection object created by `fc.copy(dtype=dt)`: a collection on the grid of `fc` whose array has as many
+cells as the members of `fc` together -/
+theorem copy_collection_object {s s' : State K} (hwf : WF s) {h : Nat} {o : Obj} {dt : Option DType}
+    {os : List Obj} (ho : s.objs[h]? = some o) (hc : o.cls = .coll) (hos : getObjs s o.members = .ok os)
+    (hs : step G s (.copy h dt) = .ok s') :
+    ∃ r : Obj, s'.objs[s.objs.length + os.length]? = some r ∧ r.cls = .coll ∧ r.grid = o.grid ∧
+      r.view.len = (os.flatMap (fun m => s.store.readView m.view)).length := by
+  have g : getObj s h = .ok o := by unfold getObj; rw [ho]
+  simp only [step, g, copyAny, hc, copyColl, hos] at hs
+  obtain ⟨os', hget, hreads⟩ := copyEach_reads os s hwf (getObjs_mem hos)
+  obtain ⟨e1, hids, hlen⟩ := eff_mapEach mkCopy os s hwf
+  change (copyEach s os).2 = _ at hids
+  change (copyEach s os).1.objs.length = _ at hlen
+  unfold linkColl linkFrom at hs
+  rw [hget] at hs
+  simp only at hs
+  split at hs
+  · cases hs
+  split at hs
+  · cases hs
+  split at hs
+  · cases hs
+  split at hs
+  · cases hs
+  cases hs
+  have hnot : (copyEach s os).1.objs.length ∉ (copyEach s os).2 := by
+    rw [hids, hlen]; simp [List.mem_range']
+  rw [← hlen, relinkAll_not_mem _ _ _ _ _ _ hnot, allocObj_new]
+  refine ⟨_, rfl, rfl, rfl, ?_⟩
+  simp only [collCells, length_castCells]
+  rw [List.flatMap_def, List.flatMap_def, hreads]
+
+/-- **values of `fc <op> v` for a collection `fc` and a number `v`** (`_binary_operation`: `result =
+fc.copy(dtype=t)`, then the ufunc writes `result.data`): the result collection (id `len + #members`; its members are
+the objects before it) holds `op(fc[p], v)` at every valid cell - `fc[p]` read from the collection's OWN array - and,
+at every ghost cell, the CURRENT data of the member objects converted to the result dtype `t`. -/
+theorem binop_collection_scalar_values {s s' : State K} (hwf : WF s) {bop : BinOp} {a : Nat} {v : K} {k : Nat}
+    {oa : Obj} {os : List Obj} (hoa : s.objs[a]? = some oa) (hc : oa.cls = .coll)
+    (hos : getObjs s oa.members = .ok os) (hs : step G s (.binop bop a (.num v k)) = .ok s') :
+    ∃ (t : DType) (r : Obj), s'.objs[s.objs.length + os.length]? = some r ∧ r.cls = .coll ∧ r.grid = oa.grid ∧
+      r.view.len = (os.flatMap (fun m => s.store.readView m.view)).length ∧
+      ∀ p, p < r.view.len →
+        (s'.denote (s.objs.length + os.length))[p]? = some
+          (if validSel G r p = true then opv bop (cellOf (s.denote a) p) (some v)
+           else ((castCells (some t) (os.flatMap (fun m => s.store.readView m.view)))[p]?).join) := by
+  have ga : getObj s a = .ok oa := by unfold getObj; rw [hoa]
+  have hda : s.denote a = s.store.readView oa.view := by unfold State.denote; rw [hoa]
+  simp only [step, binop, ga] at hs
+  split at hs
+  · cases hs
+  split at hs
+  · cases hs
+  unfold copyThenWrite at hs
+  split at hs
+  · cases hs
+  rename_i s1 hc1
+  have hstep : step G s (.copy a (some ((s.store.dtOf oa.view.buf).resultScalar k))) = .ok s1 := by
+    simp only [step, ga]; exact hc1
+  obtain ⟨e1, _, _⟩ := eff_copyAny hwf hc1
+  obtain ⟨hlen, hden⟩ := copy_collection_reads_members hwf hoa hc hos hstep
+  simp only [Option.getD_some] at hden
+  obtain ⟨r, hr, hrc, hrg, hrl⟩ := copy_collection_object hwf hoa hc hos hstep
+  have hlast : lastId s1 = s.objs.length + os.length := by unfold lastId; omega
+  rw [hlast] at hs
+  have gr : getObj s1 (s.objs.length + os.length) = .ok r := by unfold getObj; rw [hr]
+  rw [gr] at hs
+  simp only at hs
+  cases hs
+  refine ⟨(s.store.dtOf oa.view.buf).resultScalar k, r, hr, hrc, hrg, hrl, ?_⟩
+  intro p hp
+  obtain ⟨hb1, hsz1⟩ := e1.wf _ _ hr
+  have hsz1' : r.view.off + r.view.len ≤ s1.store.size r.view.buf := by simpa using hsz1
+  rw [denote_writeSel e1.wf _ _ _ hr p hp]
+  have e0 : r.view.off + p - r.view.off = p := by omega
+  simp only [e0]
+  have hold : s1.store.readView oa.view = s.store.readView oa.view := by
+    obtain ⟨hb, hsz⟩ := hwf a oa hoa
+    exact e1.readView_eq _ hb (by simpa using hsz)
+  have hread : s1.store.read r.view.buf (r.view.off + p) =
+      ((castCells (some ((s.store.dtOf oa.view.buf).resultScalar k))
+        (os.flatMap (fun m => s.store.readView m.view)))[p]?).join := by
+    rw [← hden]
+    unfold State.denote
+    rw [hr, Store.getElem?_readView _ _ p hp hsz1']
+    rfl
+  by_cases hv : validSel G r p = true
+  · rw [if_pos ⟨trivial, by omega, by omega, hv⟩, if_pos hv, hold, hda]
+  · rw [if_neg (fun h => hv h.2.2.2), if_neg hv, hread]
+
+/-- **values of `fc <op> b` for a collection `fc` and a field or collection `b`**, in the branch of
+`_binary_operation` in which `fc` holds the result (`binopSrc = fc`: compatible collections, or a scalar field as
+second operand of `/`, `**`): `op(fc[p], b[p mod len b])` at every valid cell, the current data of the members of `fc`
+converted to the result dtype at every ghost cell. -/
+theorem binop_collection_values {s s' : State K} (hwf : WF s) {bop : BinOp} {a hb : Nat}
+    {oa ob : Obj} {os : List Obj} (hoa : s.objs[a]? = some oa) (hob : s.objs[hb]? = some ob) (hc : oa.cls = .coll)
+    (hos : getObjs s oa.members = .ok os) (hsrc : binopSrc s bop oa ob = .ok oa)
+    (hs : step G s (.binop bop a (.obj hb)) = .ok s') :
+    ∃ (t : DType) (r : Obj), s'.objs[s.objs.length + os.length]? = some r ∧ r.cls = .coll ∧ r.grid = oa.grid ∧
+      r.view.len = (os.flatMap (fun m => s.store.readView m.view)).length ∧
+      ∀ p, p < r.view.len →
+        (s'.denote (s.objs.length + os.length))[p]? = some
+          (if validSel G r p = true then opv bop (cellOf (s.denote a) p) (cellOf (s.denote hb) p)
+           else ((castCells (some t) (os.flatMap (fun m => s.store.readView m.view)))[p]?).join) := by
+  have ga : getObj s a = .ok oa := by unfold getObj; rw [hoa]
+  have hda : s.denote a = s.store.readView oa.view := by unfold State.denote; rw [hoa]
+  have gb : getObj s hb = .ok ob := by unfold getObj; rw [hob]
+  have hdb : s.denote hb = s.store.readView ob.view := by unfold State.denote; rw [hob]
+  simp only [step, binop, ga, gb, hsrc] at hs
+  split at hs
+  · cases hs
+  split at hs
+  · cases hs
+  split at hs
+  · cases hs
+  split at hs
+  · cases hs
+  unfold copyThenWrite at hs
+  split at hs
+  · cases hs
+  rename_i s1 hc1
+  have hstep : step G s (.copy a (some ((s.store.dtOf oa.view.buf).result (s.store.dtOf ob.view.buf)))) = .ok s1 := by
+    simp only [step, ga]; exact hc1
+  obtain ⟨e1, _, _⟩ := eff_copyAny hwf hc1
+  obtain ⟨hlen, hden⟩ := copy_collection_reads_members hwf hoa hc hos hstep
+  simp only [Option.getD_some] at hden
+  obtain ⟨r, hr, hrc, hrg, hrl⟩ := copy_collection_object hwf hoa hc hos hstep
+  have hlast : lastId s1 = s.objs.length + os.length := by unfold lastId; omega
+  rw [hlast] at hs
+  have gr : getObj s1 (s.objs.length + os.length) = .ok r := by unfold getObj; rw [hr]
+  rw [gr] at hs
+  simp only at hs
+  cases hs
+  refine ⟨(s.store.dtOf oa.view.buf).result (s.store.dtOf ob.view.buf), r, hr, hrc, hrg, hrl, ?_⟩
+  intro p hp
+  obtain ⟨hb1, hsz1⟩ := e1.wf _ _ hr
+  have hsz1' : r.view.off + r.view.len ≤ s1.store.size r.view.buf := by simpa using hsz1
+  rw [denote_writeSel e1.wf _ _ _ hr p hp]
+  have e0 : r.view.off + p - r.view.off = p := by omega
+  simp only [e0]
+  have hold : s1.store.readView oa.view = s.store.readView oa.view := by
+    obtain ⟨hb, hsz⟩ := hwf a oa hoa
+    exact e1.readView_eq _ hb (by simpa using hsz)
+  have holdb : s1.store.readView ob.view = s.store.readView ob.view := by
+    obtain ⟨hb, hsz⟩ := hwf hb ob hob
+    exact e1.readView_eq _ hb (by simpa using hsz)
+  have hread : s1.store.read r.view.buf (r.view.off + p) =
+      ((castCells (some ((s.store.dtOf oa.view.buf).result (s.store.dtOf ob.view.buf)))
+        (os.flatMap (fun m => s.store.readView m.view)))[p]?).join := by
+    rw [← hden]
+    unfold State.denote
+    rw [hr, Store.getElem?_readView _ _ p hp hsz1']
+    rfl
+  by_cases hv : validSel G r p = true
+  · rw [if_pos ⟨trivial, by omega, by omega, hv⟩, if_pos hv, hold, holdb, hda, hdb]
+  · rw [if_neg (fun h => hv h.2.2.2), if_neg hv, hread]
+
+theorem flatMap_block {α β : Type} (f : α → List β) : ∀ (l : List α) (k : Nat) (x : α), l[k]? = some x →
+    ((l.flatMap f).drop (((l.map (fun a => (f a).length)).take k).sum)).take (f x).length = f x := by
+  intro l
+  induction l with
+  | nil => intro k x h; simp at h
+  | cons a l ih =>
+    intro k x h
+    cases k with
+    | zero =>
+      simp at h; subst h
+      simp
+    | succ k =>
+      simp at h
+      simp only [List.flatMap_cons, List.map_cons, List.take_succ_cons, List.sum_cons]
+      rw [List.drop_append, List.drop_eq_nil_of_le (by omega), List.nil_append, Nat.add_sub_cancel_left]
+      exact ih k x h
+
+
+theorem castCells_drop_take (l : List (Option K)) (dt : DType) (a b : Nat) :
+    ((castCells (some dt) l).drop a).take b = castCells (some dt) ((l.drop a).take b) := by
+  simp [castCells, List.map_drop, List.map_take]
+
+/-- **values of the members of a copied collection**: member `k` of `fc.copy(dtype=dt)` (object `len + k`, re-linked
+to block `k` of the new collection array) reads the current data of member `k` of `fc`, every cell converted to the
+dtype of the copy. -/
+theorem copy_collection_member_reads {s s' : State K} (hwf : WF s) {h : Nat} {o : Obj} {dt : Option DType}
+    {os : List Obj} (ho : s.objs[h]? = some o) (hc : o.cls = .coll) (hos : getObjs s o.members = .ok os)
+    (hs : step G s (.copy h dt) = .ok s') (k : Nat) (m : Obj) (hk : os[k]? = some m) :
+    s'.denote (s.objs.length + k) =
+      castCells (some (dt.getD (s.store.dtOf o.view.buf))) (s.store.readView m.view) := by
+  have g : getObj s h = .ok o := by unfold getObj; rw [ho]
+  simp only [step, g, copyAny, hc, copyColl, hos] at hs
+  obtain ⟨os', hget, hreads⟩ := copyEach_reads os s hwf (getObjs_mem hos)
+  obtain ⟨e1, hids, hlen⟩ := eff_mapEach mkCopy os s hwf
+  change (copyEach s os).2 = _ at hids
+  change (copyEach s os).1.objs.length = _ at hlen
+  unfold linkColl linkFrom at hs
+  rw [hget] at hs
+  simp only at hs
+  split at hs
+  · cases hs
+  split at hs
+  · cases hs
+  split at hs
+  · cases hs
+  split at hs
+  · cases hs
+  cases hs
+  set A := (copyEach s os).1 with hA
+  have wfA : WF A := e1.wf
+  obtain ⟨hl', hko⟩ := getObjs_ok hget
+  have hkl : k < os.length := lt_length_of_getElem? hk
+  have hlo : os'.length = os.length := by rw [hl', hids]; simp
+  have hmsk : (copyEach s os).2[k]? = some (s.objs.length + k) := by
+    rw [hids]; simp [hkl]
+  obtain ⟨m', hm'1, hm'2⟩ := hko k _ hmsk
+  have hnd : (copyEach s os).2.Nodup := by rw [hids]; exact List.nodup_range'
+  have hkm : k < (copyEach s os).2.length := by rw [hids]; simpa using hkl
+  have hkls : k < (os'.map (·.view.len)).length := by simpa [hlo] using hkl
+  have hmsk' : (copyEach s os).2[k] = s.objs.length + k := by
+    have := List.getElem?_eq_getElem hkm; rw [hmsk] at this; exact (Option.some.inj this).symm
+  have hrel := relinkAll_mem A.store.next (copyEach s os).2 (os'.map (·.view.len))
+    (A.allocObj (collCells A os' none (collDType A os' none (some (dt.getD (s.store.dtOf o.view.buf)))))
+      (collDType A os' none (some (dt.getD (s.store.dtOf o.view.buf))))
+      { cls := .coll, grid := o.grid, ncomp := (os'.map (·.ncomp)).sum, view := ⟨0, 0, 0⟩,
+        members := (copyEach s os).2 }) 0 hnd (by simp [hl']) k hkm hkls
+  rw [hmsk'] at hrel
+  have hold : (A.allocObj (collCells A os' none (collDType A os' none (some (dt.getD (s.store.dtOf o.view.buf)))))
+      (collDType A os' none (some (dt.getD (s.store.dtOf o.view.buf))))
+      { cls := .coll, grid := o.grid, ncomp := (os'.map (·.ncomp)).sum, view := ⟨0, 0, 0⟩,
+        members := (copyEach s os).2 }).objs[s.objs.length + k]? = some m' := by
+    simp only [State.allocObj]
+    rw [List.getElem?_append_left (by rw [hlen]; omega)]
+    exact hm'2
+  rw [hold] at hrel
+  unfold State.denote
+  rw [hrel]
+  simp only [Option.map_some, relinkAll_store, State.allocObj]
+  -- the new buffer
+  have hrv : ∀ (st : Store K) (c : List (Option K)) (d : DType) (a b : Nat),
+      (st.alloc c d).readView ⟨st.next, a, b⟩ = (c.drop a).take b := by
+    intro st c d a b; simp [Store.readView, Store.alloc, Store.next]
+  rw [hrv]
+  simp only [collCells, collDType, Option.getD_some, Nat.zero_add]
+  rw [castCells_drop_take]
+  congr 1
+  -- lengths of the blocks are the lengths of what the copied members read
+  have hlens : os'.map (·.view.len) = os'.map (fun a => (A.store.readView a.view).length) := by
+    apply List.map_congr_left
+    intro x hx
+    obtain ⟨j, hj⟩ := getObjs_mem hget x hx
+    exact (Store.length_readView _ _ (by simpa using (wfA j x hj).2)).symm
+  have hxk : (os'.map (·.view.len))[k] = (A.store.readView m'.view).length := by
+    have : (os'.map (·.view.len))[k]? = some (A.store.readView m'.view).length := by
+      rw [hlens, List.getElem?_map, hm'1]; rfl
+    rw [List.getElem?_eq_getElem hkls] at this; exact Option.some.inj this
+  rw [hxk, hlens, flatMap_block (fun a => A.store.readView a.view) os' k m' hm'1]
+  -- what the copied member reads is what the original member reads
+  have := congrArg (fun l => l[k]?) hreads
+  simp only [List.getElem?_map, hm'1, hk, Option.map_some] at this
+  exact Option.some.inj this
+
+/-- `[make(f) for f in fields]` for any `make` whose content depends on what the field reads only: the new objects,
+in order, read `make(f)` of the originals -/
+theorem mapEach_reads (mk : Store K → Obj → List (Option K) × DType)
+    (hmk : ∀ (st st' : Store K) (o : Obj), st'.readView o.view = st.readView o.view → (mk st' o).1 = (mk st o).1) :
+    ∀ (os : List Obj) (s : State K), WF s → (∀ o ∈ os, ∃ m : Nat, s.objs[m]? = some o) →
+    ∃ os' : List Obj, getObjs (mapEach mk s os).1 (mapEach mk s os).2 = .ok os' ∧
+      os'.map (fun o' => (mapEach mk s os).1.store.readView o'.view) =
+        os.map (fun o => (mk s.store o).1) := by
+  intro os
+  induction os with
+  | nil => intro s _ _; exact ⟨[], rfl, rfl⟩
+  | cons o os ih =>
+    intro s hwf hlive
+    have e1 := eff_allocObj hwf (mk s.store o).1 (mk s.store o).2 { o with members := [] }
+    set s1 := s.allocObj (mk s.store o).1 (mk s.store o).2 { o with members := [] } with hs1
+    have hlive1 : ∀ x ∈ os, ∃ m : Nat, s1.objs[m]? = some x := by
+      intro x hx
+      obtain ⟨m, hm⟩ := hlive x (List.mem_cons_of_mem _ hx)
+      obtain ⟨x', h1, h2⟩ := e1.old m x hm
+      rcases h2 with h2 | ⟨f, _⟩
+      · exact ⟨m, by rw [h1, h2]⟩
+      · exact f.elim
+    obtain ⟨os', hget, hreads⟩ := ih s1 e1.wf hlive1
+    obtain ⟨e2, _, _⟩ := eff_mapEach mk os s1 e1.wf
+    have hnew : s1.objs[s.objs.length]? =
+        some { o with members := [], view := ⟨s.store.next, 0, (mk s.store o).1.length⟩ } := by
+      rw [hs1, allocObj_new]
+    obtain ⟨o1, ho1, h2⟩ := e2.old _ _ hnew
+    have ho1' : o1 = { o with members := [], view := ⟨s.store.next, 0, (mk s.store o).1.length⟩ } := by
+      rcases h2 with h2 | ⟨f, _⟩
+      · exact h2
+      · exact f.elim
+    have hunf : mapEach mk s (o :: os) = ((mapEach mk s1 os).1, s.objs.length :: (mapEach mk s1 os).2) := rfl
+    have hg1 : getObj (mapEach mk s1 os).1 s.objs.length = .ok o1 := by
+      unfold getObj; rw [ho1]
+    refine ⟨o1 :: os', ?_, ?_⟩
+    · rw [hunf]
+      show getObjs (mapEach mk s1 os).1 (s.objs.length :: (mapEach mk s1 os).2) = _
+      unfold getObjs
+      rw [hg1, hget]
+    · rw [hunf]
+      simp only [List.map_cons]
+      congr 1
+      · obtain ⟨hb1, hsz1⟩ := e1.wf _ _ hnew
+        have := e2.readView_eq _ hb1 hsz1
+        rw [ho1', this]
+        show (s.store.alloc _ _).readView ⟨s.store.next, 0, _⟩ = _
+        rw [readView_alloc_new]
+      · rw [hreads]
+        apply List.map_congr_left
+        intro x hx
+        obtain ⟨m, hm⟩ := hlive x (List.mem_cons_of_mem _ hx)
+        exact hmk _ _ _ (readView_allocObj_old hwf hm _ _ _)
+
+/-- **values of `-fc`** for a collection (collection.py:632-643: `FieldCollection([-f for f in fields])`): one new
+object per member, then the collection (id `len + #members`), whose array holds, member after member, `-x` at the
+valid cells and NOTHING at the ghost cells - converted to the dtype `t` the constructor derives from the members. -/
+theorem negate_collection_values {s s' : State K} (hwf : WF s) {h : Nat} {o : Obj} {os : List Obj}
+    (ho : s.objs[h]? = some o) (hc : o.cls = .coll) (hos : getObjs s o.members = .ok os)
+    (hs : step G s (.neg h) = .ok s') :
+    s'.objs.length = s.objs.length + os.length + 1 ∧
+    ∃ t : DType, s'.denote (s.objs.length + os.length) = castCells (some t) (os.flatMap (fun m =>
+      (s.store.readView m.view).mapIdx (fun p x => if validSel G m p then x.map (fun y => -y) else none))) := by
+  have g : getObj s h = .ok o := by unfold getObj; rw [ho]
+  simp only [step, g, negate, hc, hos] at hs
+  have hs' : linkColl (mapEach (mkNeg G) s os).1 (mapEach (mkNeg G) s os).2 o.grid none = .ok s' := by
+    simpa using hs
+  clear hs
+  obtain ⟨os', hget, hreads⟩ := mapEach_reads (mkNeg G)
+    (fun st st' o e => by simp only [mkNeg, e]) os s hwf (getObjs_mem hos)
+  obtain ⟨e1, hids, hlen⟩ := eff_mapEach (mkNeg G) os s hwf
+  unfold linkColl linkFrom at hs'
+  rw [hget] at hs'
+  simp only at hs'
+  split at hs'
+  · cases hs'
+  split at hs'
+  · cases hs'
+  split at hs'
+  · cases hs'
+  split at hs'
+  · cases hs'
+  cases hs'
+  have hnot : (mapEach (mkNeg G) s os).1.objs.length ∉ (mapEach (mkNeg G) s os).2 := by
+    rw [hids, hlen]; simp [List.mem_range']
+  constructor
+  · rw [relinkAll_length, allocObj_length, hlen]
+  · refine ⟨collDType (mapEach (mkNeg G) s os).1 os' none none, ?_⟩
+    unfold State.denote
+    rw [← hlen, relinkAll_not_mem _ _ _ _ _ _ hnot, allocObj_new, relinkAll_store]
+    simp only [State.allocObj]
+    rw [readView_alloc_new]
+    simp only [collCells]
+    congr 1
+    rw [List.flatMap_def, List.flatMap_def, hreads]
+    rfl
+
 end
 
 /-! ### concrete histories (kernel-evaluated): the hypotheses are satisfiable, the conclusions are what the model computes -/
@@ -381,5 +740,43 @@ example : True := by
   trivial
 example : (run exGrid {} (exVals.take 3 ++ [.inplace .mul 1 (.obj 0)])).denote 1 =
     [some 7, some 3, some 8, some 8] := by decide +kernel
+
+/-- `copy_collection_member_reads` and `binop_collection_scalar_values` on the collection of the example (handle 4,
+members 0 and 1): the hypotheses are satisfiable; `fc * 2` = members 5, 6 and collection 7 -/
+example : True := by
+  have h1 := copy_collection_member_reads (G := exGrid) (s := run exGrid {} (exVals.take 7))
+    (s' := run exGrid {} exVals) (h := 4) (dt := none) (o := ⟨.coll, 0, 2, ⟨4, 0, 8⟩, [0, 1]⟩)
+    (os := [⟨.scalar, 0, 1, ⟨4, 0, 4⟩, []⟩, ⟨.vector, 0, 1, ⟨4, 4, 4⟩, []⟩])
+    (wf_run wf_empty _) rfl rfl rfl rfl 1 ⟨.vector, 0, 1, ⟨4, 4, 4⟩, []⟩ rfl
+  have h2 := binop_collection_scalar_values (G := exGrid) (s := run exGrid {} (exVals.take 7))
+    (s' := run exGrid {} (exVals.take 7 ++ [.binop .mul 4 (.num 2 0)])) (bop := .mul) (a := 4) (v := 2) (k := 0)
+    (oa := ⟨.coll, 0, 2, ⟨4, 0, 8⟩, [0, 1]⟩)
+    (os := [⟨.scalar, 0, 1, ⟨4, 0, 4⟩, []⟩, ⟨.vector, 0, 1, ⟨4, 4, 4⟩, []⟩])
+    (wf_run wf_empty _) rfl rfl rfl rfl
+  trivial
+example : (run exGrid {} exVals).denote 6 = [some 7, some 3, some 4, some 8] ∧
+    (run exGrid {} (exVals.take 7 ++ [.binop .mul 4 (.num 2 0)])).denote 7 =
+      [none, some 18, some 4, none, some 7, some 6, some 8, some 8] := by decide +kernel
+
+/-- `negate_collection_values` on the same collection: `-fc` = members 5, 6 and collection 7; ghost cells never written -/
+example : True := by
+  have h := negate_collection_values (G := exGrid) (s := run exGrid {} (exVals.take 7))
+    (s' := run exGrid {} (exVals.take 7 ++ [.neg 4])) (h := 4) (o := ⟨.coll, 0, 2, ⟨4, 0, 8⟩, [0, 1]⟩)
+    (os := [⟨.scalar, 0, 1, ⟨4, 0, 4⟩, []⟩, ⟨.vector, 0, 1, ⟨4, 4, 4⟩, []⟩])
+    (wf_run wf_empty _) rfl rfl rfl rfl
+  trivial
+example : (run exGrid {} (exVals.take 7 ++ [.neg 4])).denote 7 =
+    [none, some (-9), some (-2), none, none, some (-3), some (-4), none] := by decide +kernel
+
+/-- `binop_collection_values` on `fc * fc`: hypotheses satisfiable (the collection itself holds the result) -/
+example : True := by
+  have h := binop_collection_values (G := exGrid) (s := run exGrid {} (exVals.take 7))
+    (s' := run exGrid {} (exVals.take 7 ++ [.binop .mul 4 (.obj 4)])) (bop := .mul) (a := 4) (hb := 4)
+    (oa := ⟨.coll, 0, 2, ⟨4, 0, 8⟩, [0, 1]⟩) (ob := ⟨.coll, 0, 2, ⟨4, 0, 8⟩, [0, 1]⟩)
+    (os := [⟨.scalar, 0, 1, ⟨4, 0, 4⟩, []⟩, ⟨.vector, 0, 1, ⟨4, 4, 4⟩, []⟩])
+    (wf_run wf_empty _) rfl rfl rfl rfl rfl rfl
+  trivial
+example : (run exGrid {} (exVals.take 7 ++ [.binop .mul 4 (.obj 4)])).denote 7 =
+    [none, some 81, some 4, none, some 7, some 9, some 16, some 8] := by decide +kernel
 
 end PdeVerif.Heap
